@@ -135,7 +135,7 @@ Ltac weaken L := eapply ksound_weaken; [|apply L]; cbv beta; intros o [Hh Hg].
 Lemma cond_sound : forall c,
   asound (cond_acon c) (P c true) /\ asound (invert (cond_acon c)) (P c false).
 Proof.
-  induction c as [ |cs|cs|l|l|ls|op n|t|t|c0| |b0|po|n star|pre star post|po|kps|a IHa b IHb|c1|l1|n1 b1|c IH|a IHa b IHb|a IHa b IHb];
+  induction c as [ |cs|cs|l|l|ls|op n|t|t|c0| |b0|po|n star|pre star post|po|kps|a IHa b IHb|fl a IHa b IHb|c1|l1|n1 b1|c IH|a IHa b IHb|a IHa b IHb];
     cbn [cond_acon invert flip negb].
   - (* truthy *)
     split; apply asound_leaf.
@@ -289,6 +289,16 @@ Proof.
       destruct (holds a o) as [[|]|] eqn:Ea; try discriminate.
       * right. split; [exact Hh|apply c02_guard_join; tauto].
       * left. split; [exact Ea|apply c02_guard_join; tauto].
+  - (* (a) if f() else (b): the value is one of the two; whichever it is, its constraint (or its negation) holds *)
+    destruct IHa as [IHa1 IHa2]. destruct IHb as [IHb1 IHb2]. split.
+    + apply (asound_weaken _ (fun o => P a true o \/ P b true o)); [|apply asound_alt; assumption].
+      intros o [Hh Hg]. guard_parts Hg. simpl in Hh, Hok, Hpn.
+      apply andb_true_iff in Hok. apply orb_false_iff in Hpn. apply sps_split in Hss. simpl in Hap. apply orb_false_iff in Hap. simpl in Hgp. apply orb_false_iff in Hgp.
+      destruct fl; [left|right]; (split; [exact Hh|apply c02_guard_join; tauto]).
+    + apply (asound_weaken _ (fun o => P a false o \/ P b false o)); [|apply asound_alt; assumption].
+      intros o [Hh Hg]. guard_parts Hg. simpl in Hh, Hok, Hpn.
+      apply andb_true_iff in Hok. apply orb_false_iff in Hpn. apply sps_split in Hss. simpl in Hap. apply orb_false_iff in Hap. simpl in Hgp. apply orb_false_iff in Hgp.
+      destruct fl; [left|right]; (split; [exact Hh|apply c02_guard_join; tauto]).
   - (* assert_is_instance *)
     split; apply asound_leaf.
     + weaken (isinstance_pos_sound c1). guard_parts Hg. simpl in Hh. injection Hh as Hh'.
@@ -460,6 +470,41 @@ Example generic_typeis_positive :
   c02_guard (CTypeIs [VGen (GList TStrE)]) (OList []) = true /\
   holds (CTypeIs [VGen (GList TStrE)]) (OList []) = Some true.
 Proof. vm_compute. repeat split; reflexivity. Qed.
+
+(* a union-valued condition: both branches stay inhabited by what can take them *)
+Example alternatives_example :
+  let V := [plain (VKnown ONone); plain (VTuple [(true, TIntE)]); plain (VKnown (OInt 1))] in
+  let c := CIfExp true (CIsInstance [CStr]) (CNot (CIsInstance [CStr])) in
+  narrow V c false = V /\ narrow V c true = V /\
+  holds c (OInt 1) = Some false /\ holds (CIfExp false (CIsInstance [CStr]) (CNot (CIsInstance [CStr]))) (OInt 1) = Some true /\
+  c02_guard c (OInt 1) = true.
+Proof. vm_compute. repeat split; reflexivity. Qed.
+
+(* stored conditions: the object reaches the branch through definition d; the stored flag tells the truth
+   about it only if d was current when the condition was evaluated *)
+Theorem stored_narrow_keeps_value : forall cur cons V c pol o d,
+  In d cur -> member o V = true -> (In d cons -> holds c o = Some pol) -> c02_guard c o = true ->
+  member o (stored_narrow cur cons V c pol) = true.
+Proof.
+  intros cur cons V c pol o d Hd Hm Hh Hg. unfold stored_narrow, stored_narrow_with, model_stale_test. simpl.
+  destruct (forallb (fun d0 => mem_id d0 cons) cur) eqn:E; [|exact Hm].
+  rewrite forallb_forall in E. pose proof (E d Hd) as Hin. unfold mem_id in Hin.
+  apply existsb_exists in Hin. destruct Hin as [d' [Hin' Heq]]. apply Nat.eqb_eq in Heq. subst d'.
+  apply (narrow_keeps_value_partial V c pol o Hm (Hh Hin') Hg).
+Qed.
+
+(* with the "rebound on every path" test instead, an object bound by a definition the condition never
+   saw is lost: x: int | str; was_int = isinstance(x, int); if flag: x = "hello"; if was_int: ... *)
+Lemma stored_disjoint_rule_refuted :
+  exists cur cons V c pol o d,
+    In d cur /\ member o V = true /\ (In d cons -> holds c o = Some pol) /\ c02_guard c o = true /\
+    member o (stored_narrow_with StaleIfDisjoint cur cons V c pol) = false.
+Proof.
+  exists [1; 2], [1], [plain (VTyped CInt); plain (VKnown (OStr [104%N]))], (CIsInstance [CInt]), true, (OStr [104%N]), 2.
+  repeat split; try reflexivity.
+  - right. left. reflexivity.
+  - intros [H|[]]. discriminate.
+Qed.
 
 Lemma narrow_keeps_value_refuted : ~ narrow_keeps_value_full_statement.
 Proof.
